@@ -58,6 +58,20 @@ def check_text(ctx, res, t, tag, batch):
     if status != 'ok' or back != t:
         key = 'C05:text-ends-with-compat-suffix' if (ends_fc and status == 'ok') else 'C05:roundtrip:' + hx(t)[:60]
         res.fail(key, 'decompress_code(header+compress_code(t)) != t (%s, got %s)' % (status, hx(back or b'')[-40:]), inp)
+    # (3) the code area as the PNG writer lays it out for this text: when it stores the text compressed, the area is — by the format —
+    # the magic, the length of the TEXT (big endian), two zero bytes, the stream, zero padding; whatever the text says or ends with
+    if len(t) <= 4096 and not t.startswith(b':c:'):
+        from pico8.game.formatter import p8png
+        try:
+            ab = bytes(p8png.get_bytes_from_code(t))
+        except Exception as e:
+            ab = None
+            res.fail('C05:writer-area-raises:' + hx(t)[:60], 'get_bytes_from_code raised %r on a short text' % (e,), inp)
+        if ab is not None and ab[:4] == b':c:\x00':
+            if (ab[4] << 8 | ab[5]) != len(t) or ab[6:8] != b'\x00\x00' or ab[8:8 + len(comp)] != comp or any(ab[8 + len(comp):]):
+                res.fail('C05:writer-area:' + hx(t)[:60], 'the code area the PNG writer lays out for a compressed text is not magic + text length (%d) + 00 00 + '
+                         'the stream + zero padding (length field says %d)' % (len(t), ab[4] << 8 | ab[5]), inp, observed=hx(ab[:16]))
+            res.count('writer-area-compressed')
     batch.append(('comp ' + hx(t), 'ok ' + hx(comp), {'op': 'compress', 'text': hx(t)[:80]}))
     batch.append(('decomp ' + hx(area(t, comp, pad)), ('ok %d %s %d' % (n, hx(back), sz)) if status == 'ok' else status,
                   {'op': 'decompress', 'text': hx(t)[:80]}))
@@ -130,7 +144,8 @@ def run(ctx, res):
     # the compatibility suffix (whole, or a proper prefix/suffix of it) anywhere but at the very end: an ordinary text, must round-trip
     for fc in (c.PICO8_FUTURE_CODE1, c.PICO8_FUTURE_CODE2):
         for t in (fc + b'\nx=1\n', b'x=1\n' + fc + b'\ny=2', fc + b' ', fc + fc[:-1], b'-- shim\n' + fc + b'\nfunction _draw() end\n',
-                  fc[1:], fc[:-1], b'a\n' + fc[:-1], fc[:len(fc) // 2] + b'\n' + fc[len(fc) // 2:], fc + b'\n'):
+                  fc[1:], fc[:-1], b'a\n' + fc[:-1], fc[:len(fc) // 2] + b'\n' + fc[len(fc) // 2:], fc + b'\n',
+                  b'x=1 y=2 x=1 y=2 x=1 y=2\n' + fc + b'\n', b'function _update60() x=1 end\n' + fc + b' \n', fc + b'\n\n', fc + b'\t', fc + b'\r\n'):
             check_text(ctx, res, t, 'suffix-inside', batch)
     # known finding family: text that itself ends with the compatibility suffix
     check_text(ctx, res, b'x=1\n' + c.PICO8_FUTURE_CODE2, 'ends-with-suffix', batch)
